@@ -33,6 +33,7 @@ def bounds(tier):
             "boundaries": "triangle/trapezoid switch area (ramppts*dt*gmax) and +-1 ulp; areas where ceil() arguments are integers, +-1 ulp; min_trap_grad: area = dgdt*dt^2/2 * {1/2, 1, 2}",
             "max samples": 2e5 if tier == "quick" else 2e6,
             "ramp lengths": "every ramp length 1..%d in both regimes (2 flat-top lengths), 2 (dgdt, dt) pairs" % (3000 if tier == "thorough" else 420),
+            "stspk": "1-5 spokes x 4 hardware settings x 4 (tbw, slice thickness) on an 8x8 mask with 2 coils",
             "spokes": "ordered location sets of 1-3 distinct points from {0,+-5,+-20}^2 and from {0,+-1,+-2.5}^2 (quick: 1-2 points + a thinned set of triples), 3 hardware settings"}
 
 
@@ -93,6 +94,11 @@ def gen_cases(tier, seed):
     for hw in ((4.0, 15000.0, 4e-6), (1.0, 5000.0, 1e-5), (4.0, 2000.0, 4e-6)):
         for s in sets + sets2:
             cases.append(dict(kind="spokes", k=[list(p) for p in s], gmax=hw[0], dgdt=hw[1], dt=hw[2]))
+    # the spokes designer that assembles such a gradient itself (ptx.stspk): 1-5 spokes chosen greedily on a small mask
+    for ns in (1, 2, 3, 4, 5):
+        for hw in ((2.0, 18000.0, 4e-6), (4.0, 15000.0, 4e-6), (1.0, 5000.0, 1e-5), (4.0, 2000.0, 4e-6)):
+            for tbw, sl in ((4, 5.0), (4, 3.0), (2, 5.0), (8, 10.0)):
+                cases.append(dict(kind="stspk", n_spokes=ns, gmax=hw[0], dgdt=hw[1], dt=hw[2], tbw=tbw, sl_thick=sl))
     cases.append(dict(kind="meta", skipped=skipped))
     return cases
 
@@ -144,6 +150,8 @@ def run_case(case, seed):
         return dict(states=1, transitions=1, nontrivial=False, outcome="grid points skipped for size: %d" % case["skipped"], viol=[])
     if case["kind"] == "spokes":
         return run_spokes(case, viol)
+    if case["kind"] == "stspk":
+        return run_stspk(case, viol)
     area, gmax, dgdt, dt = case["area"], case["gmax"], case["dgdt"], case["dt"]
     r = int(np.ceil(gmax / dgdt / dt))
     regime = "triangle" if r * dt * gmax > area else "trapezoid"
@@ -224,3 +232,46 @@ def run_spokes(case, viol):
         if bad:
             break
     return dict(states=1, transitions=1, nontrivial=True, outcome=("ok/" + ("fits" if fits else "long-blip")) if not viol else "violation:" + viol[0]["oracle"], viol=viol)
+
+
+def run_stspk(case, viol):
+    """ptx.stspk returns (pulses, g); g is assembled by spokes_grad from trap_grad / min_trap_grad designs, each of which
+    starts and ends at zero, so the assembled gradient does too; amplitude and slew (zero-extended) as for spokes_grad;
+    RF and gradient have one sample each per time point; with one spoke (at DC)
+    the gradient IS spokes_grad([[0, 0]])."""
+    import sigpy.mri.rf as rfm
+    from sigpy.mri.rf import trajgrad as tg
+    gmax, dgdt, dt = case["gmax"], case["dgdt"], case["dt"]
+    ns, tbw, sl = case["n_spokes"], case["tbw"], case["sl_thick"]
+    dim, nc = 8, 2
+    yy, xx = np.mgrid[:dim, :dim]
+    mask = ((xx - 3.5) ** 2 + (yy - 3.5) ** 2 <= 9)
+    sens = np.stack([np.exp(-((xx - 1) ** 2 + (yy - 3) ** 2) / 30) * np.exp(1j * 0.2 * xx),
+                     np.exp(-((xx - 6) ** 2 + (yy - 4) ** 2) / 30) * np.exp(-1j * 0.3 * yy)]).astype(np.complex64) * mask
+    when = "%d spoke(s)" % ns if ns == 1 else "several spokes"
+
+    def V(oracle, detail):
+        viol.append(dict(oracle=oracle, key=dict(site="mri.rf.ptx.stspk", when=when), detail=detail + " | " + str(case)))
+    pulses, g = rfm.stspk(mask, sens, ns, fov=4, dx_max=1, gts=dt, sl_thick=sl, tbw=tbw, dgdtmax=dgdt, gmax=gmax)
+    g = np.asarray(g, dtype=float)
+    pulses = np.asarray(pulses)
+    if g.ndim != 2 or g.shape[0] != 3 or pulses.ndim != 2 or pulses.shape[0] != nc:
+        V("waveform-shape", "stspk returned pulses %s, g %s" % (pulses.shape, g.shape))
+        return dict(states=1, transitions=1, nontrivial=True, outcome="violation:waveform-shape", viol=viol)
+    if pulses.shape[1] != g.shape[1]:
+        V("waveform-shape", "RF has %d samples, gradient %d" % (pulses.shape[1], g.shape[1]))
+    tol = 1e-9
+    for ax, nm in enumerate("xyz"):
+        if g[ax, 0] != 0 or g[ax, -1] != 0:
+            V("end-points", "g%s: first/last sample %.6g / %.6g" % (nm, g[ax, 0], g[ax, -1]))
+        mx = float(np.abs(g[ax]).max())
+        if not mx <= gmax * (1 + tol):
+            V("amplitude", "g%s: max |g| = %.9g > gmax %.9g" % (nm, mx, gmax))
+        sl_ = float(np.abs(np.diff(np.concatenate(([0.0], g[ax], [0.0])))).max() / dt)
+        if not sl_ <= dgdt * (1 + tol):
+            V("slew", "g%s: max |dg/dt| = %.9g > %.9g (incl. junctions and end points)" % (nm, sl_, dgdt))
+    if ns == 1:
+        ref = np.asarray(tg.spokes_grad(np.zeros((1, 2)), tbw, sl, gmax, dgdt, dt), dtype=float)
+        if ref.shape != g.shape or not np.array_equal(ref, g):
+            V("assembled-gradient", "one spoke at DC: the returned gradient %s is not spokes_grad([[0, 0]]) %s" % (g.shape, ref.shape))
+    return dict(states=1, transitions=1, nontrivial=True, outcome=("stspk/odd" if g.shape[1] % 2 else "stspk/even") if not viol else "violation:" + viol[0]["oracle"], viol=viol)
